@@ -125,6 +125,47 @@ pub fn c11(opts: &Opts, out: &mut Out, ped_labels: &[Vec<u8>]) {
                 let cnt_ok = rp.gi_base_iter().count() == total && rp.hi_base_iter().skip(3).count() == total.saturating_sub(3) && rp.gi_base_iter().last() == gs.last();
                 out.oracle("C11:iterator-protocol", proto_ok && cnt_ok, &key, &why);
             }
+            // the iterators against the model's state machine: random sequences of next / size_hint / nth(j) over the
+            // free module, items named by their position in the (label-checked) flat list
+            if bits * cap <= 128 {
+                use rand_core::RngCore;
+                let mut orng = chacha(opts.seed, 1100 + (bits * 64 + cap) as u64);
+                for (kind, flat, mk) in [("G", fp.gi_base_iter().cloned().collect::<Vec<FP>>(), 0u8), ("H", fp.hi_base_iter().cloned().collect::<Vec<FP>>(), 1u8)] {
+                    let pos_of: HashMap<u32, usize> = flat.iter().enumerate().map(|(i, p)| (p.single_id().unwrap(), i)).collect();
+                    let mut it: Box<dyn Iterator<Item = &FP> + '_> = if mk == 0 { Box::new(fp.gi_base_iter()) } else { Box::new(fp.hi_base_iter()) };
+                    let total = bits * cap;
+                    let mut ops: Vec<String> = vec![];
+                    let mut outs: Vec<String> = vec![];
+                    let show = |o: Option<&FP>| -> String {
+                        match o {
+                            Some(p) => match p.single_id().and_then(|id| pos_of.get(&id)) {
+                                Some(pos) => format!("{}.{}", pos / bits, pos % bits),
+                                None => "?".into(),
+                            },
+                            None => "-".into(),
+                        }
+                    };
+                    for _ in 0..(total + 8).min(48) {
+                        match orng.next_u32() % 8 {
+                            0 | 1 => {
+                                let (lo, hi) = it.size_hint();
+                                ops.push("h".into());
+                                outs.push(if hi == Some(lo) { format!("h{}", lo) } else { format!("h{}/{:?}", lo, hi) });
+                            },
+                            2 => {
+                                let j = (orng.next_u32() as usize) % (bits + 3);
+                                ops.push(format!("t{}", j));
+                                outs.push(show(it.nth(j)));
+                            },
+                            _ => {
+                                ops.push("n".into());
+                                outs.push(show(it.next()));
+                            },
+                        }
+                    }
+                    out.req(format!("geniter kind={} n={} m={} ops={}", kind, bits, cap, ops.join(",")), format!("out={}", outs.join(",")));
+                }
+            }
             classes.insert((bits, cap));
         }
     }
